@@ -72,6 +72,49 @@ def check(prog, rep, rule, want=('accept', 'parsestream')):
                     rep.finding(rule, 'ParseStream|source encoding', f.loc(n),
                                 'ParseStream over an AutoUTFInputStream is instantiated without AutoUTF as source encoding (%s): the detected UTF-16/32 code units '
                                 'are parsed as UTF-8 bytes' % targs[-120:], func=f.id)
+    if 'strings' in want:
+        n_str = 0
+        for f in sorted(prog.funcs.values(), key=lambda g: g.id):
+            if f.body is None or not in_json(f):
+                continue
+            for n in f.walk():
+                if n['k'] != 'CXXMemberCallExpr':
+                    continue
+                c = f.callee(n)
+                if c is None or c.get('n') not in ('GetString', 'c_str') or not (c['q'].startswith('rapidjson::GenericValue') or c.get('n') == 'c_str'):
+                    continue
+                if c.get('n') == 'c_str':
+                    # a key handed to a rapidjson lookup as C string loses everything after a null character
+                    p = f.parent(n)
+                    while p is not None and p['k'] in PASS + ('ImplicitCastExpr',):
+                        p = f.parent(p)
+                    pc = f.callee(p) if p is not None and p['k'] in ('CXXMemberCallExpr', 'CallExpr') else None
+                    if pc is None or pc.get('n') not in ('FindMember', 'HasMember', 'operator[]') or not pc['q'].startswith('rapidjson::'):
+                        continue
+                    n_str += 1
+                    rep.touch(f)
+                    rep.finding(rule, 'key lookup by C string|%s' % (f.pq if f.cls else f.name).split('<')[0].split('::')[-1], f.loc(n),
+                                'a member lookup passes key.c_str(): a key that contains U+0000 (legal in JSON) is searched under its prefix', func=f.id)
+                    continue
+                n_str += 1
+                rep.touch(f)
+                # the pointer must travel together with GetStringLength() of the same value into the constructed view / string
+                p = f.parent(n)
+                while p is not None and p['k'] in PASS + ('ImplicitCastExpr',):
+                    p = f.parent(p)
+                ok = False
+                if p is not None and p['k'] in ('CXXConstructExpr', 'CXXTemporaryObjectExpr', 'CXXFunctionalCastExpr', 'CallExpr', 'CXXMemberCallExpr'):
+                    ok = any(x['k'] == 'CXXMemberCallExpr' and (f.callee(x) or {}).get('n') in ('GetStringLength', 'GetSize', 'GetLength') for x in f.walk(p))
+                who = 'rapidjson ' + ('string buffer' if 'StringBuffer' in c['q'] else 'value')
+                if ok:
+                    rep.ok(rule, 'GetString with its length|%s' % f.loc(n), sample={'at': f.loc(n)})
+                elif 'GenericStringBuffer' in c['q']:
+                    rep.ok(rule, 'rendered text taken as C string|%s' % f.loc(n), nontrivial=False)     # JSON text never contains a raw NUL (escaped as \\u0000)
+                else:
+                    rep.finding(rule, 'GetString without length|%s' % (f.pq if f.cls else f.name).split('<')[0].split('::')[-1], f.loc(n),
+                                '%s GetString() is used without GetStringLength(): text after an embedded U+0000 (legal in JSON as \\u0000) is lost' % who, func=f.id)
+        if n_str < 2:
+            raise AnalysisBroken('%s: fewer than 2 GetString() uses found in the JSON adapter' % rule)
     if 'accept' in want and n_acc < 4:
         raise AnalysisBroken('%s: fewer than 4 rapidjson Accept() calls found in the JSON adapter (%d)' % (rule, n_acc))
     if 'parsestream' in want and n_ps < 1:
